@@ -12,6 +12,12 @@ import (
 )
 
 func (in *Interp) binop(op token.Token, a, b Value, ta, tb types.Type) Value {
+	// noescape idiom: uintptr(p) ^ 0 keeps the pointer
+	if pa, ok := a.(PtrV); ok && op == token.XOR {
+		if tb, ok := b.(*Term); ok && tb.IsConst() && tb.c.Sign() == 0 {
+			return pa
+		}
+	}
 	// equality on non-scalars
 	switch op {
 	case token.EQL:
